@@ -212,3 +212,19 @@ Example C06_lone_station_example :
   ex_lone_trace = Ok [(KListenToken, None, 0%nat); (KListenToken, None, 0%nat); (KClaimToken, Some [220; 1; 1], 0%nat)].
 Proof. vm_compute. reflexivity. Qed.
 
+
+(* ------------------------------------------------------------------------------------------ *)
+(* ORACLE SOUNDNESS, PARTIAL (see Properties/C01.v for model_transcript and the hypotheses, including the
+   excluded corner `no_stale`): the monitor rule R06_no_claim_after_timeout ("a listening / idle station that
+   has certainly seen nothing for its time-out claims the token in this poll") is never reported on a
+   transcript of the model.  NOT covered: R06_no_backoff.
+   FULL: forall r, In (k, r) (monitor ..) -> rule_prop r <> PC06. *)
+From PB Require Import Params C05Proofs FdlOracle FdlOracleSound1 FdlOracleSound3.
+
+Theorem C06_oracle_sound_partial : forall (A : Type) (ops : app_ops A) (p : params),
+  apps_total A ops -> builder_valid p ->
+  forall (apps : list A) (ins : list minput),
+  ins_ok 0 ins -> transcript_ok A ops p no_stale apps ins ->
+  forall k r, In (k, r) (monitor p (length apps) (model_transcript A ops p apps ins)) -> r <> R06_no_claim_after_timeout.
+Proof. exact c06_claim_oracle_sound. Qed.
+Print Assumptions C06_oracle_sound_partial.
